@@ -458,6 +458,19 @@ impl KEnv {
         c
     }
 
+    /// index of the first record of `kind` (usize::MAX if none)
+    pub fn first(&self, kind: u8) -> usize {
+        let r = self.recs.borrow();
+        let mut i = 0;
+        while i < MAX_REC {
+            if i < self.nrec.get() && r[i].kind == kind {
+                return i;
+            }
+            i += 1;
+        }
+        usize::MAX
+    }
+
     // ---- names the lifted text uses on `self` -------------------------------------------
     #[inline(always)]
     pub fn mark_need_flush(&self, val: bool) {
